@@ -2,3 +2,4 @@ pub mod store;
 pub mod session;
 pub mod sync;
 pub mod das;
+pub mod prune;
